@@ -110,3 +110,62 @@ B("state changed before validation in doConnect", ["C20"],
 N("window guard in the or-form", ["C20"],
   [(BASE, "        if not (0 < n <= self.MAX_WINDOW):", "        if n < 1 or n > self.MAX_WINDOW:")])
 N("publish qos guard with <= 2", ["C20"], [(PS, "        if not ( 0<= request.qos < 3):", "        if not (0 <= request.qos <= 2):")])
+
+# ---------------------------------------------------------------- C05
+B("handlePUBREC fires the Deferred", ["C05"],
+  [(PS, "            reply.deferred = request.deferred       # Transfer the deferred to PUBREL", "            request.deferred.callback(request.msgId)\n            reply.deferred = request.deferred       # Transfer the deferred to PUBREL")],
+  {"C05": ["R-PUBREC", "R-WHO-FIRE"]})
+B("handlePUBACK without del", ["C05"],
+  [(PS, "            request.deferred.callback(request.msgId)\n            del self.factory.windowPublish[self.addr][response.msgId]\n", "            request.deferred.callback(request.msgId)\n")],
+  {"C05": ["R-FIRE"]})
+B("handlePUBCOMP looks up the publish window", ["C05"],
+  [(PS, "            reply = self.factory.windowPubRelease[self.addr][response.msgId]\n        except KeyError as e:", "            reply = self.factory.windowPublish[self.addr][response.msgId]\n        except KeyError as e:")],
+  {"C05": ["R-LOOKUP", "R-WHO-FIRE", "R-FIRE"]})
+B("effect in the miss branch of handlePUBACK", ["C05"],
+  [(PS, '            log.debug("<== {packet:7} (id={response.msgId:04x}) already handled", packet="PUBACK", response=response)\n',
+    '            log.debug("<== {packet:7} (id={response.msgId:04x}) already handled", packet="PUBACK", response=response)\n            self._refillPublish(dup=False)\n')],
+  {"C05": ["R-LOOKUP"]})
+B("deferred.msgId = 0", ["C05"],
+  [(PS, "        request.deferred.msgId = request.msgId\n        self._refillPublish(dup=False)", "        request.deferred.msgId = 0\n        self._refillPublish(dup=False)")], {"C05": ["R-ID"]})
+B("handlePUBREC without the Deferred transfer", ["C05"],
+  [(PS, "            reply.deferred = request.deferred       # Transfer the deferred to PUBREL\n", "")], {"C05": ["R-PUBREC", "R-DROP"]})
+B("QoS 0 with a pending Deferred", ["C05"],
+  [(PS, "            request.deferred = defer.succeed(None)", "            request.deferred = defer.Deferred()")], {"C05": ["R-DROP"]})
+B("PUBACK handler without try/except", ["C05"],
+  [(PS, "        try:\n             request = self.factory.windowPublish[self.addr][response.msgId]\n        except KeyError as e:\n            log.debug(\"<== {packet:7} (id={response.msgId:04x}) already handled\", packet=\"PUBACK\", response=response)\n        else:\n",
+    "        request = self.factory.windowPublish[self.addr][response.msgId]\n        if True:\n")], {"C05": ["R-LOOKUP"]})
+B("identifier reassigned after encode", ["C05"],
+  [(PS, "        self.factory.queuePublishTx[self.addr].append(request)\n", "        self.factory.queuePublishTx[self.addr].append(request)\n        request.msgId = self.factory.makeId() if request.msgId else None\n")],
+  {"C05": ["R-ID"]})
+B("PUBCOMP success without removing the entry", ["C05"],
+  [(PS, "            del self.factory.windowPubRelease[self.addr][reply.msgId]\n            self._refillPublish(dup=False)", "            self._refillPublish(dup=False)")], {"C05": ["R-FIRE"]})
+N("del moved before callback in handlePUBACK", ["C05"],
+  [(PS, "            request.deferred.callback(request.msgId)\n            del self.factory.windowPublish[self.addr][response.msgId]\n",
+    "            del self.factory.windowPublish[self.addr][response.msgId]\n            request.deferred.callback(request.msgId)\n")])
+N("callback with response.msgId", ["C05"],
+  [(PS, "            request.deferred.callback(request.msgId)\n            del self.factory.windowPublish", "            request.deferred.callback(response.msgId)\n            del self.factory.windowPublish")])
+
+# ---------------------------------------------------------------- C06
+B("QoS 1 PUBLISH without PUBACK", ["C06"],
+  [(PS, '            log.debug("<== {packet:7} (id={response.msgId:04x})" , packet="PUBACK", response=response)\n            self.transport.write(reply.encode())\n',
+    '            log.debug("<== {packet:7} (id={response.msgId:04x})" , packet="PUBACK", response=response)\n')], {"C06": ["P1"]})
+B("QoS 2 PUBLISH delivered at once", ["C06"],
+  [(PS, "            self.factory.windowPubRx[self.addr][response.msgId] = response\n", "            self.factory.windowPubRx[self.addr][response.msgId] = response\n            self._deliver(response)\n")], {"C06": ["P1"]})
+B("PUBACK with a constant identifier", ["C06"],
+  [(PS, "            reply = PUBACK()\n            reply.msgId = response.msgId\n", "            reply = PUBACK()\n            reply.msgId = 1\n")], {"C06": ["P3"]})
+B("_deliver with dup and retain swapped", ["C06"],
+  [(PS, "pdu.qos, pdu.dup, pdu.retain, pdu.msgId)", "pdu.qos, pdu.retain, pdu.dup, pdu.msgId)")], {"C06": ["P4"]})
+B("PUBCOMP only on the hit path (D6 re-introduced)", ["C06"],
+  [(PS, "            self._deliver(msg)\n        reply = PUBCOMP()\n        reply.msgId = response.msgId\n        log.debug(\"<== {packet:7} (id={response.msgId:04x})\" , packet=\"PUBCOMP\", response=response)\n        self.transport.write(reply.encode())\n",
+    "            self._deliver(msg)\n            reply = PUBCOMP()\n            reply.msgId = response.msgId\n            self.transport.write(reply.encode())\n")], {"C06": ["P2"]})
+B("doPublish writes a PUBACK", ["C06"],
+  [(PS, "        self.factory.queuePublishTx[self.addr].append(request)\n", "        self.factory.queuePublishTx[self.addr].append(request)\n        ack = PUBACK()\n        ack.msgId = 1\n        self.transport.write(ack.encode())\n")], {"C06": ["P5"]})
+B("session purge empties the receive window", ["C06"],
+  [(PS, "        for k in list(self.factory.windowPubRelease[self.addr]):\n            request = self.factory.windowPubRelease[self.addr][k]\n",
+    "        self.factory.windowPubRx[self.addr].clear()\n        for k in list(self.factory.windowPubRelease[self.addr]):\n            request = self.factory.windowPubRelease[self.addr][k]\n")], {"C06": ["P6"]})
+B("stored message delivered but kept", ["C06"],
+  [(PS, "            del self.factory.windowPubRx[self.addr][response.msgId]\n            self._deliver(msg)", "            self._deliver(msg)")], {"C06": ["P2"]})
+B("QoS 0 PUBLISH acknowledged", ["C06"],
+  [(PS, "        if  response.qos == 0:\n", "        if  response.qos == 0:\n            reply = PUBACK()\n            reply.msgId = response.msgId\n            self.transport.write(reply.encode())\n")], {"C06": ["P1"]})
+N("write and deliver reordered in the QoS 1 branch", ["C06"],
+  [(PS, '            self.transport.write(reply.encode())\n            self._deliver(response)\n        elif response.qos == 2:', '            self._deliver(response)\n            self.transport.write(reply.encode())\n        elif response.qos == 2:')])
